@@ -606,7 +606,7 @@ class Processor(object):
         label_list = header[2:-1].split(";")
         f.close()
 
-        data = np.loadtxt(file_name, delimiter="\t")
+        data = np.loadtxt(file_name, delimiter="\t", ndmin=2)
         if not inctime:
             coeffs = data.T
         else:
@@ -619,7 +619,7 @@ class Processor(object):
             return coeffs
         else:
             self.set_tlist(tlist)
-            return self.get_full_tlist, coeffs
+            return self.get_full_tlist(), coeffs
 
     ####################################################################
     # Pulse
